@@ -66,9 +66,12 @@ def write(path, text):
 def make_workdir(ctx):
     wd = os.path.join(core.OUT, PID, "work_%s_%d" % (ctx.tier, ctx.seed))
     shutil.rmtree(wd, ignore_errors=True)
+    for old in os.listdir(os.path.join(core.OUT, PID)):
+        if old.startswith("replay_"):
+            os.remove(os.path.join(core.OUT, PID, old))
     os.makedirs(os.path.join(wd, "res_tsan"))
     os.makedirs(os.path.join(wd, "res_plain"))
-    for f in ("doc2.xml", "imported.xsl"):
+    for f in ("doc2.xml", "imported.xsl", "noid.xml", "idonly.xsl"):
         shutil.copy(os.path.join(CORPUS, f), os.path.join(wd, f))
     return wd
 
@@ -81,8 +84,6 @@ def gen_cases(ctx, wd, n_random, tag="g"):
         # corpus: every facility at once, every way of sharing
         write(os.path.join(wd, "all.xsl"), thrgen.make_xsl(facs))
         write(os.path.join(wd, "src0.xml"), thrgen.make_xml(r, 14))
-        write(os.path.join(wd, "noid.xml"), NOID_XML)
-        write(os.path.join(wd, "idonly.xsl"), IDONLY_XSL)
         allx, src0 = os.path.join(wd, "all.xsl"), os.path.join(wd, "src0.xml")
         cases += [Case("c_native", "native", True, 8, 3, 0, allx, src0, "corpus", facs),
                   Case("c_wrap", "wrap", True, 8, 3, 0, allx, src0, "corpus", facs),
@@ -122,10 +123,10 @@ def run_case(exe, case, outdir, variant):
     t0 = time.time()
     try:
         p = subprocess.run(cmd, input=case.line(outdir) + "\n", env=env, stdout=subprocess.PIPE, stderr=subprocess.PIPE,
-                           timeout=300, universal_newlines=True, errors="replace")
+                           timeout=150, universal_newlines=True, errors="replace")
         rc, out, err = p.returncode, p.stdout, p.stderr
     except subprocess.TimeoutExpired as ex:
-        rc, out, err = 124, (ex.stdout or b"").decode("utf-8", "replace") if isinstance(ex.stdout, bytes) else (ex.stdout or ""), "[timeout after 300 s]"
+        rc, out, err = 124, (ex.stdout or b"").decode("utf-8", "replace") if isinstance(ex.stdout, bytes) else (ex.stdout or ""), "[timeout after 150 s]"
     return {"rc": rc, "out": out, "err": err, "secs": time.time() - t0}
 
 
@@ -159,7 +160,7 @@ def evaluate(ctx, cases, wd, exes):
             m = re.search(r"(?m)^%s (\w+) T=(\d+) R=(\d+) runs=(\d+) mismatches=(\d+) errors=(\d+) reflen=(\d+) refhash=(\w+) ?(.*)$" % re.escape(c.id), res["out"])
             known = "KT1" if in_class_KT1(c) else "KT2" if in_class_KT2(c) else None
             if res["rc"] == 124:
-                fails.append({"case": c, "variant": v, "kind": "hang", "what": "no result within 300 s", "known": known, "report": ""})
+                fails.append({"case": c, "variant": v, "kind": "hang", "what": "no result within 150 s", "known": known, "report": ""})
                 continue
             if not m:
                 fails.append({"case": c, "variant": v, "kind": "crash", "what": "driver exited with status %d without a result line: %s" % (res["rc"], res["err"][-600:]),
@@ -192,7 +193,7 @@ def evaluate(ctx, cases, wd, exes):
 
 def replay_text(f, wd):
     c = f["case"]
-    t = ["# C07 %s (%s build): %s" % (f["kind"], f["variant"], f["what"]),
+    t = ["# C07 %s (%s build): %s" % (f["kind"], f["variant"], re.sub(r"\s+", " ", f["what"])[:600]),
          "# replay: TSAN_OPTIONS='%s' %s/.build/thr_tsan   (or thr_plain), stdin = the case line below" % (TSAN_OPTS, core.VERIF),
          "# case: mode=%s sharexsl=%s threads=%d rounds=%d yieldseed=%d facilities=%s" % (c.mode, c.sharexsl, c.T, c.R, c.yseed, ",".join(c.facilities)),
          c.line(os.path.join(wd, "res_" + (f["variant"] if f["variant"] != "both" else "tsan")))]
